@@ -24,6 +24,11 @@ def instances(tier):
     L += [
         I("size_w13_fault", trig="size", base=1, count=3, limit=1, sizes=(1, 2), maxrec=5, faults=1, pre="PreNone"),
         I("size_w13_crash", trig="size", base=1, count=3, limit=1, sizes=(1, 2), maxrec=5, crash=1, pre="PreNone"),
+        # .gz pattern: the final step writes the archive; a name that cannot be written (a link to /dev/full) sits at the
+        # newest index - the compress fails, the active file stays, and once the name is freed the rotation goes through
+        I("size_gz_full", trig="size", count=2, limit=2, sizes=(1, 3), maxrec=4, obst=1, gz=True, pre="PreNone"),
+        I("pre_gz_full_t", trig="pre", append=False, count=1, sizes=(1, 2), maxrec=3, obst=1, gz=True, pre="PreNone"),
+        I("post_gz_full", trig="post", count=2, sizes=(1, 2), maxrec=3, obst=1, restart=1, gz=True, pre="PreNone"),
         I("size_w01_fault", trig="size", count=1, limit=1, sizes=(1, 2), maxrec=4, faults=1, restart=1, pre="PreNone"),
         I("size_fault_restart", trig="size", count=2, limit=2, sizes=(1, 3), maxrec=4, faults=1, restart=1, pre="PreNone"),
         I("big_size", trig="size", base=1, count=2, limit=2, sizes=(1, 3), maxrec=6, faults=2, crash=1, restart=1,
@@ -58,7 +63,8 @@ def run(tier, replay=None):
     run.rule = ("every behaviour of the listed Rolling.tla instances in which a step fault is armed at any shift "
                 "index / the final move, a non-empty directory is placed at any archive name, or the process dies at "
                 "any hook point (before each roller step, after the roller, after the flush, after the append), at "
-                "every rotation of the history, in both open modes, with size / pre / post triggers, followed by "
+                "every rotation of the history (with a .gz pattern also a name that cannot be written - a link to /dev/full - at "
+                "the newest index, so that the compressing final step fails while writing), in both open modes, with size / pre / post triggers, followed by "
                 "every continuation; crash images are directory copies taken inside the hook callback and a new "
                 "appender is built over the copy; non-trivial = perturbed behaviours in which a rotation happened")
     run.assumptions = ["long behaviours (400 / 1000 records with faults, crashes, restarts, obstacles and encoder failures) are sampled by TLC -simulate (40 / 400 per instance), not enumerated", "compress step is atomic; death inside gzip output or inside the cross-mount copy fallback is out of scope (the fallback itself runs in the cross-mount materialisation when /dev/shm is a separate filesystem)",
